@@ -58,6 +58,8 @@ def cmd_check(pid: str, tier: str) -> int:
         seed = 0
     scale = float(os.environ.get("VERIF_SCALE", "1") or 1)
     scenarios = reg[pid]
+    for f in load_findings().get("open", []):
+        runner.KNOWN_CLASSES.update(f.get("classes") or [f["class"]])
     t0 = time.monotonic()
     print(f"[{pid}] tier={tier} VERIF_SEED={seed} src={paths.REPO_SRC} workers={runner.n_workers()}", flush=True)
     try:
@@ -87,7 +89,10 @@ def cmd_check(pid: str, tier: str) -> int:
 
     findings = load_findings()
     open_f = [f for f in findings.get("open", []) if f["property"] == pid]
-    known_classes = {f["class"]: f for f in open_f}
+    known_classes = {}
+    for f in open_f:
+        for c in f.get("classes") or [f["class"]]:
+            known_classes[c] = f
     scn_by_name = {s.name: s for s in scenarios}
     exit_code = 0
     n_viol = 0
@@ -99,8 +104,9 @@ def cmd_check(pid: str, tier: str) -> int:
         status = "replay file missing"
         if os.path.exists(path):
             viols, _, _ = runner.replay_file(path, scn_by_name)
-            status = "reproduced from " + f["replay"] if any(c == f["class"] for c, _ in viols) else "NOT reproduced by " + f["replay"]
-        print(f"KNOWN-FINDING: property={pid} {f['what']} [class {f['class']}; {status}]")
+            fcls = f.get("classes") or [f["class"]]
+            status = "reproduced from " + f["replay"] if any(c in fcls for c, _ in viols) else "NOT reproduced by " + f["replay"]
+        print(f"KNOWN-FINDING: property={pid} {f['what']} [class {(f.get('classes') or [f['class']])[0]}; {status}]")
 
     violations_out = []
     # regression replays of repaired defects: a fixed entry suppresses nothing
@@ -113,6 +119,7 @@ def cmd_check(pid: str, tier: str) -> int:
             continue
         viols, _, doc = runner.replay_file(path, scn_by_name)
         regress_run += 1
+        viols = [v for v in viols if v[0] not in runner.KNOWN_CLASSES]
         if viols:
             n_viol += 1
             exit_code = 1
@@ -194,7 +201,7 @@ def write_evidence(pid, tier, seed, results, wall, n_viol, det_checked, known_hi
         "property_id": pid,
         "tier": tier,
         "seed": seed,
-        "level": "exploration",
+        "level": results[0].scn.level,
         "coverage": {
             "evaluations": evaluations,
             "distinct_nontrivial": distinct_nt,
